@@ -286,3 +286,31 @@ func FrameKinds(c *Codec, limit int) map[string][]int {
 	}
 	return kinds
 }
+
+// ManyUnitsKind returns a frame of more than half the decoder's unit-count limit, every unit in a packet
+// of its own (so the frame spans as many packets as it has units), or nil when the codec has no such
+// limit or no such size exists at this payload limit.
+func ManyUnitsKind(c *Codec, limit int) []int {
+	if c.UnitCountLimit == 0 {
+		return nil
+	}
+	n := c.UnitCountLimit/2 + 1
+	for _, s := range c.sizesUpTo(limit) {
+		if s < c.MinUnit+5 {
+			continue
+		}
+		one, err1 := EncodeStream(c, limit, [][]int{{s}})
+		two, err2 := EncodeStream(c, limit, [][]int{{s, s}})
+		if err1 != nil || err2 != nil || len(one.Pkts[0]) != 1 || len(two.Pkts[0]) != 2 {
+			continue
+		}
+		sz := make([]int, n)
+		for i := range sz {
+			sz[i] = s
+		}
+		if es, err := EncodeStream(c, limit, [][]int{sz}); err == nil && len(es.Pkts[0]) == n {
+			return sz
+		}
+	}
+	return nil
+}
